@@ -79,6 +79,19 @@ CHECKS['C14'] = ('hypothesis', 'fault_enumeration',
     'is delivered again, and across all incarnations every record whose file survives is delivered.',
     'rename atomic; a crash loses only un-closed/un-renamed data; clock strictly increasing.', '5 C14')
 
+CHECKS['C02'] = ('simnet', 'exploration',
+    'property-based testing on a simulated network: Hypothesis-generated schedules/faults; history invariant (strictly increasing per origin incarnation) + payload round-trip against the publisher-side record + reference subscription model',
+    'Real runtime on simnet with delays up to 400 ms (stale and duplicated requests), kill/stop + restart of any filter, queued requests flushed or discarded on reconnect, every '
+    'subscription spec and payload kind; per consumer incarnation seq strictly increasing per origin incarnation, every delivered frame equal to what was published for its uid, '
+    'delivered topic = reference subscription model, no unsubscribed (hidden) topic ever delivered.',
+    SIMNET_NOTE, '5 C02')
+CHECKS['C03'] = ('simnet', 'exploration',
+    'property-based testing on a simulated network with a functional reference model of the pipeline (composition of the process functions); exact sequence equality per filter',
+    'In exactly the stated domain (all consumers synchronized and required, delays < 100 ms, no skipping on rejoined branches) the call log of every filter must equal, element by element '
+    'from frame 0, the input sets computed by a few-line reference model from the source sequence and the pure behaviour programs (None, {}, lone Frame, callable, topic renames, subscriptions); '
+    'callables are invoked exactly once at the virtual instant of the publish.',
+    SIMNET_NOTE, '5 C03')
+
 PENDING = {}
 
 
